@@ -8,6 +8,9 @@
 (*   {"ev":"step","op":..,"res":..,"post":state}        the history moves  *)
 (*   {"ev":"try", "op":..,"res":..,"post":state}        one operation tried*)
 (*                                     from the current state (not kept)   *)
+(*   {"ev":"mid","op":..,"sig":s,"k":k,"a":state,"b":state,"m":state}      *)
+(*        the operation with signal s arriving just before its k-th system *)
+(*        call (m), s arriving before the operation (a), after it (b)      *)
 (* The validator keeps the current observed state `cur` and the ghost      *)
 (* state `g` (inherited dispositions, the shell's own needs) itself; the   *)
 (* harness supplies neither expectations nor ghost values.                 *)
@@ -32,11 +35,22 @@ ResetChecks(r, g1) ==
 \* everything downstream would only repeat the same failure.
 Report(S) == PrintT("REJECT-WHY " \o ToJson([l |-> l, why |-> Failed(S)]))
 
+\* A signal that arrives while the trap set is being changed takes effect under
+\* the disposition before or after the change - as if it had arrived before or
+\* after the operation ("regardless of when the signal arrives").
+SameOutcome(x, y) == x.proc = y.proc /\ (x.proc = "R" => x = y)
+MidChecks(r) ==
+  << <<"mid: a signal arriving during an operation takes effect as if it arrived before or after it",
+       SameOutcome(r.m, r.a) \/ SameOutcome(r.m, r.b)>> >>
+
 TraceNext ==
   /\ l <= Len(Rec)
   /\ l' = l + 1
   /\ LET r == Rec[l] IN
-     IF r.ev = "reset"
+     IF r.ev = "mid"
+     THEN /\ UNCHANGED <<g, cur, skip>>
+          /\ AllHold(MidChecks(r)) \/ Report(MidChecks(r))
+     ELSE IF r.ev = "reset"
      THEN LET g1 == [init |-> r.init, int |-> [s \in DOMAIN r.init |-> "D"]]
               S  == ResetChecks(r, g1)
           IN IF AllHold(S) THEN g' = g1 /\ cur' = r.st /\ skip' = FALSE
